@@ -12,6 +12,7 @@ Decided:
     with an index field of the buffer; recycle_rx_buffer stores the buffer into the slot of the token returned by the
     new add, after that add succeeded, and records that token in the same index field; can_recv <=> peek_used is
     Some; can_send <=> at least the descriptors of the transmit shape are free.
+ S10 packet views: RxBuffer-like byte views are bytes[header size .. header size + recorded length], one length field.
  S5 completions consumed with a token read from the used ring use the buffer looked up by that token (C07.T5).
 Not decided: "posted + owned = all buffers at all times" over histories.
 """
@@ -22,7 +23,7 @@ from . import C05
 EXPLANATION = ("Header-size selection sites are found by their use of both header types' sizes and folded for both flag values; send / "
                "receive_complete / receive / recycle are path-enumerated with the queue API as events and checked for operand shape, "
                "folded length arithmetic and slot/token provenance.")
-FLOORS = {'selector_sites': {'*': 3, 'noalloc': 2}, 'custody_fns': {'*': 2, 'noalloc': 0}}
+FLOORS = {'selector_sites': {'*': 3, 'noalloc': 2}, 'custody_fns': {'*': 2, 'noalloc': 0}, 'packet_views': {'*': 2, 'noalloc': 0}}
 RAW = 'device::net::dev_raw::VirtIONetRaw'
 NET = 'device::net::dev::VirtIONet'
 
@@ -47,6 +48,7 @@ def run(F, R):
     offs = dict(zip([f['name'] for f in F.adts[h12]['variants'][0]['fields']], F.adts[h12]['layout']['offsets']))
     R.check(sorted(offs.values()) == [0, 1, 2, 4, 6, 8, 10], 'S1', 'header-fields', h12, 'fields at 0,1,2,4,6,8,10', 'virtio_net_hdr field offsets %s' % offs)
     s1_selector(F, R, roles, h12, h10)
+    s10_packet_view(F, R, roles, h12, h10)
     s2_send(F, R, M, roles, h12, h10)
     s3_receive(F, R, roles, h12, h10)
     s7_tx_length(F, R, roles, h12, h10)
@@ -67,6 +69,51 @@ def run(F, R):
 
 def sizeofs(t):
     return [x[1] for x in subterms(t) if x[0] == 'sizeof']
+
+
+def s10_packet_view(F, R, roles, h12, h10):
+    """The packet view of a receive buffer is the bytes after the header, as long as the recorded packet length: every function of
+    the network module that returns a byte slice and selects between the header sizes returns bytes[H .. H + self.<len field>],
+    the same length field in every view (a view of another range hands the caller bytes the device did not write as packet)."""
+    fields = {}
+    n = 0
+    for b in sorted(F.bodies.values(), key=lambda x: x['id']):
+        if not F.handwritten(b) or b['kind'] != 'AssocFn' or 'device::net' not in b['id'] or not re.search(r"-> &'?\w* ?(mut )?\[u8\]$", b.get('sig', '')):
+            continue
+        szs = set(t['substs'][0] for bl in b['blocks'] for t in [bl['term']] if t['k'] == 'call' and t.get('fn') == 'core::mem::size_of' and t.get('substs'))
+        if not ({h12, h10} <= szs):
+            continue
+        sg = supergraph(F, b['id'], opaque=lambda t, bb: True, tag='c16v', max_depth=0)
+        where = fn_site(F, b['id'])
+        try:
+            paths = [p for p in PathEnum(sg).run() if not p.panicked]
+        except PathLimit as e:
+            R.abstain('S10', b['id'], str(e), where)
+            continue
+        n += 1
+        bad = None
+        for p in paths:
+            rng = [x for x in subterms(p.ret) if x[0] == 'agg' and str(x[1]).endswith('Range')] if p.ret is not None else []
+            if len(rng) != 1:
+                bad = 'the returned slice is not one sub-range of the buffer bytes: %s' % fmt(p.ret)[:100]
+                continue
+            start, end = [strip_conv(o) for o in rng[0][2]][:2]
+            hs = set(sizeofs(start)) & {h12, h10}
+            if len(hs) != 1 or start[0] != 'sizeof':
+                bad = 'the view does not start right after the header: start = %s' % fmt(start)[:80]
+                continue
+            ok = end[0] == 'bin' and end[1] in ('Add', 'AddWithOverflow') and strip_conv(end[2]) == start
+            lf = strip_conv(end[3]) if ok else None
+            if not ok or not (lf[0] in ('load', 'load0') and lf[1][2] and lf[1][2][-1][0] == 'f'):
+                bad = 'the view does not end at header size + recorded packet length: end = %s' % fmt(end)[:100]
+                continue
+            fields.setdefault(lf[1][2][-1][1], []).append(b['id'])
+        R.check(bad is None, 'S10', '%s:packet-view' % b['id'], where, 'returns bytes[header size .. header size + recorded length]',
+                '%s: %s' % (b['name'], bad))
+    if n:
+        R.check(len(fields) == 1, 'S10', 'packet-view:one-length-field', 'device::net', 'every packet view uses the one recorded length field %s' % sorted(fields),
+                'packet views use different length fields: %s' % fields)
+    R.count('packet_views', n)
 
 
 def s1_selector(F, R, roles, h12, h10):
